@@ -155,7 +155,7 @@ theorem C18_set_then_get_affinity (c : Cfg) (hg : c.Good) (k : Kernel) (pid : Na
   have hwf' : WF (Spec.replaced k pid { st with affinity := Spec.ascending k (cpus.map Int.toNat) }
       (.affinity pid (Spec.ascending k (cpus.map Int.toNat))))
       { st with affinity := Spec.ascending k (cpus.map Int.toNat) } := by
-    refine ⟨hwf.ncpu, asc_rangeFilter _ _, ?_, ?_, hwf.ioprio, hwf.rl⟩
+    refine ⟨hwf.ncpu, asc_rangeFilter _ _, ?_, ?_, hwf.ioprio, hwf.rl, hwf.stat⟩
     · intro x hx
       have hx' := (hmem x).1 hx
       have := hall _ hx'
@@ -280,7 +280,7 @@ theorem C18_invalid_cpus_partial (c : Cfg) (hg : c.Good) (k : Kernel) (pid : Nat
   refine refines_affinity c hg k pid st (some cpus) _ _ hpid hst hwf ?_ (expect_of_onlyUnusable pid h)
   rintro ⟨_, hall, hsr⟩
   rcases hout with ⟨x, hx, hx'⟩ | hout
-  · have := hall x hx; omega
+  · have := hall x hx; have := hwf.stat; omega
   · exact hout hsr
 
 /-- the "changes nothing" half holds at full strength, also inside the region of the finding:
@@ -370,7 +370,7 @@ theorem C18_dedup (c : Cfg) (k : Kernel) (pid : Nat) (st : PState) (l l' : List 
   have e1 : l.isEmpty = false := by cases l <;> simp_all
   have e2 : l'.isEmpty = false := by cases l' <;> simp_all
   simp only [step, cpuAffinity, e1, e2, Bool.false_eq_true, if_false]
-  have hdiag : ∀ el, diagnose (List.range k.ncpu) el (dedup c l) = diagnose (List.range k.ncpu) el (dedup c l') := by
+  have hdiag : ∀ el, diagnose (List.range k.statCpus) el (dedup c l) = diagnose (List.range k.statCpus) el (dedup c l') := by
     intro el
     rw [Bool.eq_iff_iff, diagnose_true, diagnose_true]
     constructor
@@ -527,14 +527,15 @@ theorem C18_refines_any_context (c : Cfg) (hg : c.Good) (hrep : c.einvalValueErr
         ⟨hne, fun y hy => ⟨by
           have := hall y hy
           have := hwf.ncpu
+          have := hwf.stat
           simp only [fitsCLong, decide_eq_true_eq]; omega, Or.inr (Or.inr (hall y hy).2.2)⟩⟩
       rw [expect_of_onlyUnusable pid hou] at hs
       simp only [Verdict.promised.injEq] at hs
       obtain ⟨rfl, rfl⟩ := hs
       exact C18_invalid_cpus_repaired c hrep k pid st cpus x hpid hst hwf hou
     · have h1 := C18_refines c hg k pid st _ o k' hpid hst hwf hreg hs
-      simp only [step, cpuAffinity, hg.empty] at h1
-      simp only [stepX, cpuAffinityX, hg.empty, hrep, hel]
+      simp only [step, cpuAffinity, hg.count, Bool.false_eq_true, if_false, hg.empty] at h1
+      simp only [stepX, cpuAffinityX, hg.count, Bool.false_eq_true, if_false, hg.empty, hrep, hel]
       rcases expect_affinity_set_shape hs with ho | ⟨ho, hk⟩
       · subst ho
         split at h1
@@ -658,5 +659,65 @@ theorem C18_refines_code (k : Kernel) (pid : Nat) (st : PState) (x : Ctx) (req :
   C18_refines_any_context cfg cfg_good cfg_einval_is_valueError k pid st x req o k' hpid hst hwf hs
 example : fitsCLong (-1) = true ∧ fitsCLong 5 = true ∧ toU64 (-1) > toU64 5 := by decide
 example : fitsCInt 16 = true ∧ ((16 : Int) < 0 ∨ (16 : Int) ≥ 16) := by decide
+
+/-! ### worlds whose `/proc/stat` does not number the CPUs `0..N-1` (seeded C18-2)
+
+  `statCpus` = number of `cpuN` lines = `len(per_cpu_times())` is independent of which CPU ids the
+  process may use: every theorem above quantifies over all such worlds (`WF` only asks
+  `statCpus ≤ ncpu`). In particular `C18_empty_selects_all_eligible` / `C18_refines_code` hold for
+  them with the `range(1024)` request of the Linux branch. -/
+
+/-- four possible CPU ids, CPU 2 offline (three `cpuN` lines), the process on CPU 0 -/
+def stHole : PState := { stWitness with affinity := [0], cpuset := [0, 1, 3] }
+def kHole : Kernel := { kWitness with procs := fun q => if q = 7 then some stHole else none, statCpus := 3 }
+/-- a container: 16 ids, the cpuset is 14-15, a virtualised `/proc/stat` shows `cpu0`, `cpu1` -/
+def stLxc : PState := { stWitness with affinity := [14], cpuset := [14, 15] }
+def kLxc : Kernel :=
+  { kWitness with procs := fun q => if q = 7 then some stLxc else none, ncpu := 16, statCpus := 2 }
+
+/-- the request shape of the other platforms' branch, `range(len(cpu_times(percpu=True)))` -/
+def cfgCount : Cfg := { cfg with emptyAsksCount := true }
+
+theorem wf_hole : WF kHole stHole :=
+  ⟨by decide, by decide, by decide, by decide, by decide,
+    fun _ => ⟨by simp [stHole, stWitness], by simp [stHole, stWitness]⟩, by decide⟩
+
+theorem wf_lxc : WF kLxc stLxc :=
+  ⟨by decide, by decide, by decide, by decide, by decide,
+    fun _ => ⟨by simp [stLxc, stWitness], by simp [stLxc, stWitness]⟩, by decide⟩
+
+/-- why `cpu_affinity([])` must not ask for CPUs `0..N-1`, N the number of `cpuN` lines: with CPU 2
+    offline the eligible CPU 3 is left out; in the container none of `0..1` is eligible and the
+    call fails, the mask stays `[14]`. Both worlds are well-formed. -/
+theorem C18_empty_count_counterexample :
+    Spec.eligible kHole stHole = [0, 1, 3] ∧
+    ((stepX cfgCount kHole 7 ⟨0, none⟩ (.cpuAffinity (some []))).2.procs 7).map (·.affinity) = some [0, 1] ∧
+    Spec.eligible kLxc stLxc = [14, 15] ∧
+    (stepX { cfgCount with einvalValueError := true } kLxc 7 ⟨0, none⟩ (.cpuAffinity (some []))).1 = .exc .valueError ∧
+    ((stepX { cfgCount with einvalValueError := true } kLxc 7 ⟨0, none⟩ (.cpuAffinity (some []))).2.procs 7).map
+      (·.affinity) = some [14] := by
+  decide
+
+/-- … whereas the code as it is (`range(1024)`) selects all eligible CPUs in both worlds, in every
+    context (instances of `C18_refines_code`) -/
+theorem C18_empty_selects_all_eligible_with_holes (x : Ctx) :
+    ((stepX cfg kHole 7 x (.cpuAffinity (some []))).2.procs 7).map (·.affinity) = some [0, 1, 3] ∧
+    ((stepX cfg kLxc 7 x (.cpuAffinity (some []))).2.procs 7).map (·.affinity) = some [14, 15] := by
+  constructor
+  · rw [C18_refines_code kHole 7 stHole x (.cpuAffinity (some [])) _ _ (by decide) rfl wf_hole rfl]
+    decide
+  · rw [C18_refines_code kLxc 7 stLxc x (.cpuAffinity (some [])) _ _ (by decide) rfl wf_lxc rfl]
+    decide
+
+/-- a valid CPU whose id is ≥ the number of `cpuN` lines is set without complaint: the "invalid
+    CPU" test of the diagnosis loop (`cpu not in range(len(per_cpu_times()))`) runs only after the
+    native layer refused the whole list, i.e. when no listed CPU was usable anyway — it can put the
+    wrong CPU into the message of the ValueError, never turn a valid request into an error -/
+theorem C18_valid_cpu_beyond_stat_lines :
+    ((stepX cfgRepaired kHole 7 ⟨0, none⟩ (.cpuAffinity (some [3]))).1 = .ok .none) ∧
+    ((stepX cfgRepaired kHole 7 ⟨0, none⟩ (.cpuAffinity (some [3]))).2.procs 7).map (·.affinity) = some [3] ∧
+    ((stepX cfgRepaired kLxc 7 ⟨0, none⟩ (.cpuAffinity (some [15, 14]))).2.procs 7).map (·.affinity) = some [14, 15] ∧
+    (stepX cfgRepaired kLxc 7 ⟨0, none⟩ (.cpuAffinity (some [1]))).1 = .exc .valueError := by
+  decide
 
 end Psutil.C18
